@@ -753,7 +753,7 @@ def _face_wire_model(faces):
     return bytes((g + 128) if i < len(groups) - 1 else g for i, g in enumerate(groups))
 
 
-@harness(pre=["0 <= f <= 69", "0 <= g <= 69", "0 <= h <= 2"], post="_", timeout=400,
+@harness(pre=["0 <= f <= 69", "0 <= g <= 69", "0 <= h <= 2"], post="_", timeout=900,
          note="texture-entry face bitfield (TEFaceBitfield, the exception-list key of every TextureEntry field): for ANY face "
               "set {f}, {f, g} or {f, g, g+h+1} with faces 0..72 - i.e. beyond the 45 faces the viewer uses, which the wire format "
               "allows (1..11 byte bitfields) - the wire form equals an independent base-128 model, decodes back to exactly that "
